@@ -14,16 +14,20 @@ import (
 	"os"
 	"path/filepath"
 	"sort"
+	"sync"
+	"sync/atomic"
 	"testing"
 	"time"
 
 	"github.com/celestiaorg/celestia-app/v9/pkg/wrapper"
+	libhead "github.com/celestiaorg/go-header"
 	libshare "github.com/celestiaorg/go-square/v4/share"
 	"github.com/celestiaorg/rsmt2d"
 
 	"github.com/celestiaorg/celestia-node/blob"
 	"github.com/celestiaorg/celestia-node/header"
 	"github.com/celestiaorg/celestia-node/header/headertest"
+	hdrsvc "github.com/celestiaorg/celestia-node/nodebuilder/header"
 	"github.com/celestiaorg/celestia-node/share"
 	"github.com/celestiaorg/celestia-node/share/eds"
 	"github.com/celestiaorg/celestia-node/share/shwap"
@@ -197,6 +201,65 @@ func (g *stubGetter) GetRangeNamespaceData(context.Context, *header.ExtendedHead
 	return shwap.RangeNamespaceData{}, shwap.ErrOperationNotSupported
 }
 
+// ---------------------------------------------------------------------------- gossip subscription (relay mode)
+
+var errSubscriptionCancelled = errors.New("subscription cancelled") // permanent, like pubsub's
+
+// fakeSubscriber stands for the gossip header subscriber below nodebuilder/header's Service: its
+// subscriptions deliver the headers the harness scripts and can then fail for good.
+type fakeSubscriber struct {
+	mu   sync.Mutex
+	subs []*fakeSubscription
+}
+
+type fakeSubscription struct {
+	ch        chan *header.ExtendedHeader
+	failed    chan struct{}
+	errCalls  atomic.Int64 // NextHeader calls answered with the permanent error
+	cancelled atomic.Bool  // Cancel() was called
+}
+
+func (f *fakeSubscriber) Subscribe() (libhead.Subscription[*header.ExtendedHeader], error) {
+	sub := &fakeSubscription{ch: make(chan *header.ExtendedHeader), failed: make(chan struct{})}
+	f.mu.Lock()
+	f.subs = append(f.subs, sub)
+	f.mu.Unlock()
+	return sub, nil
+}
+
+func (f *fakeSubscriber) SetVerifier(func(context.Context, *header.ExtendedHeader) error) error {
+	return nil
+}
+
+func (f *fakeSubscriber) last() *fakeSubscription {
+	f.mu.Lock()
+	defer f.mu.Unlock()
+	if len(f.subs) == 0 {
+		return nil
+	}
+	return f.subs[len(f.subs)-1]
+}
+
+func (s *fakeSubscription) NextHeader(ctx context.Context) (*header.ExtendedHeader, error) {
+	select {
+	case <-s.failed:
+		s.errCalls.Add(1)
+		return nil, errSubscriptionCancelled
+	default:
+	}
+	select {
+	case h := <-s.ch:
+		return h, nil
+	case <-s.failed:
+		s.errCalls.Add(1)
+		return nil, errSubscriptionCancelled
+	case <-ctx.Done():
+		return nil, ctx.Err()
+	}
+}
+
+func (s *fakeSubscription) Cancel() { s.cancelled.Store(true) }
+
 // ---------------------------------------------------------------------------- scenario
 
 type step struct {
@@ -214,6 +277,7 @@ type script struct {
 	Tail  string `json:"tail"`     // answers to retrieval attempts once a stream is ending: allfail | allok | failthenok
 	Offer bool   `json:"offer"`    // keep offering headers while a stream is ending
 	Defer bool   `json:"defer"`    // apply all steps first, let the streams end afterwards (model counterexamples)
+	Relay bool   `json:"relay"`    // feed = the real nodebuilder/header Service.Subscribe over a fake gossip subscription
 	Bound int    `json:"bound_ms"` // > 0: once a stream is ending it must close within this much QUIET time
 	Steps []step `json:"steps"`
 }
@@ -234,9 +298,10 @@ type subscription struct {
 	feedClosed bool
 	overflow   bool
 	closedSeen bool
-	forced     bool // the harness had to cancel the stream to get rid of it
-	unasked    int  // responses that appeared without a retrieval having been answered (drift)
-	ovHeight   int  // the header that met a full buffer
+	forced     bool              // the harness had to cancel the stream to get rid of it
+	relay      *fakeSubscription // relay mode: the gossip subscription behind the feed
+	unasked    int               // responses that appeared without a retrieval having been answered (drift)
+	ovHeight   int               // the header that met a full buffer
 	trace      []map[string]any
 	tailQueue  []bool // scripted answers still to be used while ending
 }
@@ -254,6 +319,8 @@ type scenario struct {
 	broken  string
 	applied []step
 }
+
+const relaySpinBound = 5000 // NextHeader calls answered with the permanent error that prove a spinning relay
 
 const spinBound = 300 // failing attempts for one height after cancel/stop that prove a busy loop
 
@@ -318,6 +385,12 @@ func newScenario(fix *fixture, rep *vh.Report, sc script) *scenario {
 		s.feedFor = nil
 		return ch, nil
 	}
+	var gossip *fakeSubscriber
+	if sc.Relay {
+		// the node's wiring (nodebuilder/blob/module.go): blob.NewService(..., headerService.Subscribe)
+		gossip = &fakeSubscriber{}
+		hs = hdrsvc.NewServiceWithSubscriber(gossip).Subscribe
+	}
 	s.svc = blob.NewService(nil, &stubGetter{sc: s}, hg, hs)
 	if err := s.svc.Start(context.Background()); err != nil {
 		s.broken = err.Error()
@@ -341,6 +414,14 @@ func newScenario(fix *fixture, rep *vh.Report, sc script) *scenario {
 			break
 		}
 		sb.out = out
+		if gossip != nil {
+			sb.relay = gossip.last()
+			if sb.relay == nil {
+				s.broken = "relay mode: the header service did not subscribe to the gossip subscriber"
+				break
+			}
+			sb.feed = sb.relay.ch
+		}
 		if cap(out) != chanCap {
 			s.violate("C20/overflow/buffer-is-not-16", fmt.Sprintf("the subscription channel buffers %d responses; the stream must end when the reader is %d behind", cap(out), chanCap))
 		}
@@ -489,6 +570,11 @@ func (s *scenario) doHdr(sb *subscription) bool {
 		return false
 	}
 	full := sb.unconsumed == chanCap
+	if full && sb.relay != nil {
+		// through the relay the hand-over to the loop is not synchronous with this send, so whether
+		// the loop meets a full buffer would depend on timing: overflow is exercised with the direct feed
+		return false
+	}
 	h := sb.nextHdr
 	select {
 	case sb.feed <- s.fix.headers[h-1]:
@@ -645,9 +731,16 @@ func (s *scenario) doFeedClose(sb *subscription) bool {
 		return false
 	}
 	sb.feedClosed = true
-	sb.emit("feedclose")
-	close(sb.feed)
-	s.rep.Count("feed_closes", 1)
+	if sb.relay != nil {
+		// the gossip subscription dies for good; closing the feed is the relay's job
+		sb.emit("feederr")
+		close(sb.relay.failed)
+		s.rep.Count("feed_errors_through_relay", 1)
+	} else {
+		sb.emit("feedclose")
+		close(sb.feed)
+		s.rep.Count("feed_closes", 1)
+	}
 	if !s.sc.Defer {
 		s.finishStream(sb)
 	}
@@ -729,6 +822,10 @@ func (s *scenario) finishStream(sb *subscription) {
 	// gated, the reader is draining and the cause is in place -- the loop has nowhere to block.
 	bound := time.Duration(s.sc.Bound) * time.Millisecond
 	boundFired := false
+	quietSince := time.Now()
+	tick := time.NewTicker(5 * time.Millisecond)
+	defer tick.Stop()
+	idle := make(chan struct{}, 1)
 	for s.broken == "" {
 		patience := s.wd
 		if bound > 0 && !boundFired {
@@ -744,6 +841,7 @@ func (s *scenario) finishStream(sb *subscription) {
 		}
 		select {
 		case r, ok := <-sb.out:
+			quietSince = time.Now()
 			if !ok {
 				sb.closedSeen = true
 				sb.emit("closed")
@@ -763,6 +861,7 @@ func (s *scenario) finishStream(sb *subscription) {
 			}
 			s.onResponse(sb, r)
 		case ev := <-s.attCh:
+			quietSince = time.Now()
 			if ev.sub != sb.id {
 				o := s.subs[ev.sub]
 				e := ev
@@ -795,10 +894,29 @@ func (s *scenario) finishStream(sb *subscription) {
 				sb.cancel() // get rid of the goroutine
 			}
 		case feed <- hdr:
+			quietSince = time.Now()
 			sb.emit("hdr", "h", sb.nextHdr)
 			sb.nextHdr++
 			s.rep.Count("headers_taken_while_ending", 1)
-		case <-time.After(patience):
+		case <-tick.C:
+			if sb.relay != nil && sb.feedClosed && !sb.forced && sb.relay.errCalls.Load() > relaySpinBound {
+				// not a matter of timing: the relay has been told thousands of times that the gossip
+				// subscription is gone and still neither closed the feed nor let go of the subscription
+				s.violate("C20/feed/stream-stays-open-after-header-subscription-ended",
+					fmt.Sprintf("subscription %d: the gossip header subscription failed for good (NextHeader returned %q %d times), the header feed was not closed and the blob stream is still open (gossip subscription cancelled: %v)",
+						sb.id, errSubscriptionCancelled, sb.relay.errCalls.Load(), sb.relay.cancelled.Load()))
+				sb.forced = true
+				sb.cancel()
+			}
+			if time.Since(quietSince) > patience {
+				select {
+				case idle <- struct{}{}:
+				default:
+				}
+			}
+			continue
+		case <-idle:
+			quietSince = time.Now()
 			if bound > 0 && !boundFired {
 				boundFired = true
 				s.violate("C20/close/not-prompt-after-failure-streak", fmt.Sprintf("subscription %d: after a streak of failing retrievals of one height, %v of quiet time after cancel=%v stop=%v the channel is still open (nothing is gated, the reader is reading): the end of the stream waits for something else than the cancellation", sb.id, bound, sb.cancelled, s.stopped))
@@ -821,6 +939,22 @@ func (s *scenario) checkEnd(sb *subscription) {
 	if sb.forced {
 		return
 	}
+	if sb.relay != nil && (sb.cancelled || sb.feedClosed) {
+		// the relay ends with the subscriber's context / with the gossip subscription and must let
+		// go of the gossip subscription (hygiene, not part of the property: counted, not alarmed)
+		ok := false
+		for t0 := time.Now(); time.Since(t0) < 5*time.Second; time.Sleep(time.Millisecond) {
+			if sb.relay.cancelled.Load() {
+				ok = true
+				break
+			}
+		}
+		if ok {
+			s.rep.Count("relay_gossip_subscription_cancelled", 1)
+		} else {
+			s.rep.Count("relay_gossip_subscription_not_cancelled", 1)
+		}
+	}
 	if !s.ending(sb) {
 		s.violate("C20/close/stream-ended-without-cause", fmt.Sprintf("subscription %d closed: no cancel, no stop, feed open, reader not behind", sb.id))
 	}
@@ -840,6 +974,9 @@ func (s *scenario) checkEnd(sb *subscription) {
 		s.rep.Count("ended_by_stop", 1)
 	case sb.feedClosed:
 		s.rep.Count("ended_by_feed_close", 1)
+		if sb.relay != nil {
+			s.rep.Count("ended_by_feed_error_through_relay", 1)
+		}
 	case sb.overflow:
 		s.rep.Count("ended_by_overflow", 1)
 		if len(sb.recvd) != len(sb.okAnswered) || len(sb.recvd) < chanCap {
@@ -1053,6 +1190,45 @@ func streaks() []script {
 	return out
 }
 
+// relayScripts: the node's wiring -- the feed is the real nodebuilder/header Service.Subscribe over a
+// scripted gossip subscription.  The gossip subscription fails for good / the subscriber cancels /
+// the service stops at every point of three base runs; after a permanent failure the relay must
+// close the feed and the blob stream must end.
+func relayScripts() []script {
+	bases := map[string][]step{
+		"clean":      seq(block(0, 0, true), block(0, 0, true), block(0, 0, false)),
+		"failing":    seq(block(0, 2, true), block(0, 1, false), []step{{A: "hdr"}, {A: "att"}, {A: "att"}}),
+		"slowreader": seq(block(0, 0, false), block(0, 1, false), block(0, 0, false), []step{{A: "consume"}}),
+	}
+	var out []script
+	for _, bn := range []string{"clean", "failing", "slowreader"} {
+		base := bases[bn]
+		for p := 0; p <= len(base); p++ {
+			for _, trig := range []string{"feedclose", "cancel", "stop"} {
+				st := append(append([]step{}, base[:p]...), step{A: trig})
+				sc := script{Name: fmt.Sprintf("relay-%s-%s@%d", bn, trig, p), Class: "relay", Relay: true, Subs: 1,
+					Tail: "allfail", Offer: p%2 == 1, Steps: st}
+				if trig == "feedclose" {
+					sc.Bound = 8000
+				}
+				out = append(out, sc)
+			}
+		}
+	}
+	// k delivered headers, then the gossip subscription dies; two subscriptions
+	for k := 0; k <= 4; k++ {
+		var st []step
+		for i := 0; i < k; i++ {
+			st = append(st, block(i%2, i%2, i%3 == 0)...)
+		}
+		st = append(st, step{A: "feedclose", S: 0}, step{A: "hdr", S: 1}, step{A: "att", S: 1, Ok: true}, step{A: "consume", S: 1},
+			step{A: "feedclose", S: 1})
+		out = append(out, script{Name: fmt.Sprintf("relay-two-subs-%d", k), Class: "relay", Relay: true, Subs: 2, NS: []int{k % 2, 3},
+			Tail: "failthenok", Bound: 8000, Steps: st})
+	}
+	return out
+}
+
 // absentOverflow: subscriptions on namespaces no block contains; the reader stalls (or reads a
 // little) until it is a full buffer behind, and the header that then arrives is a block whose row
 // roots (a) do not cover the namespace at all / (b) cover it without containing it.
@@ -1168,6 +1344,7 @@ func TestDriver(t *testing.T) {
 		}
 	}
 	all = append(all, streaks()...)
+	all = append(all, relayScripts()...)
 	all = append(all, absentOverflow(fix)...)
 	all = append(all, absentTriggers()...)
 	all = append(all, overlap()...)
@@ -1180,7 +1357,12 @@ func TestDriver(t *testing.T) {
 	if err != nil {
 		t.Fatal(err)
 	}
-	nTraces, nLines := 0, 0
+	relayPath := filepath.Join(vh.WorkDir(), "blobsub_trace_relay.ndjson")
+	rf, err := os.Create(relayPath)
+	if err != nil {
+		t.Fatal(err)
+	}
+	nTraces, nLines, nRelayTraces := 0, 0, 0
 	for n, sc := range all {
 		s := newScenario(fix, rep, sc)
 		if s.broken == "" {
@@ -1204,19 +1386,28 @@ func TestDriver(t *testing.T) {
 			if sb.forced || !sb.closedSeen {
 				continue
 			}
+			w := tf
+			if sc.Relay {
+				w = rf
+				nRelayTraces++
+			} else {
+				nTraces++
+			}
 			for _, e := range sb.trace {
 				b, _ := json.Marshal(e)
-				tf.Write(append(b, '\n'))
+				w.Write(append(b, '\n'))
 				nLines++
 			}
-			nTraces++
 		}
 		if n%101 == 7 {
 			rep.Sample(s.replay())
 		}
 	}
 	tf.Close()
+	rf.Close()
 	rep.Set("trace_file", tracePath)
 	rep.Set("traces", nTraces)
+	rep.Set("trace_file_relay", relayPath)
+	rep.Set("traces_relay", nRelayTraces)
 	rep.Set("trace_lines", nLines)
 }
